@@ -50,6 +50,40 @@ const fn to_hex_digit(val: u16) -> u16 {
     }
 }
 
+/// Maximum nesting of arrays and objects `JSON.parse` accepts (the value of serde_json's recursion limit).
+const JSON_NESTING_LIMIT: usize = 127;
+
+/// Returns `true` if arrays and objects in the valid JSON text `text` nest deeper than `limit`.
+fn json_nesting_exceeds(text: &str, limit: usize) -> bool {
+    let mut depth = 0_usize;
+    let mut in_string = false;
+    let mut escaped = false;
+    for byte in text.bytes() {
+        if in_string {
+            if escaped {
+                escaped = false;
+            } else if byte == b'\\' {
+                escaped = true;
+            } else if byte == b'"' {
+                in_string = false;
+            }
+        } else {
+            match byte {
+                b'"' => in_string = true,
+                b'[' | b'{' => {
+                    depth += 1;
+                    if depth > limit {
+                        return true;
+                    }
+                }
+                b']' | b'}' => depth = depth.saturating_sub(1),
+                _ => {}
+            }
+        }
+    }
+    false
+}
+
 #[cfg(test)]
 mod tests;
 
@@ -241,24 +275,43 @@ impl Json {
             .first()
             .cloned()
             .unwrap_or_default()
-            .to_string(context)?
-            .to_std_string()
-            .map_err(|e| JsNativeError::syntax().with_message(e.to_string()))?;
+            .to_string(context)?;
 
         // 2. Parse ! StringToCodePoints(jsonString) as a JSON text as specified in ECMA-404.
         //    Throw a SyntaxError exception if it is not a valid JSON text as defined in that specification.
-        if let Err(e) = serde_json::from_str::<serde_json::Value>(&json_string) {
+        //
+        // Only the grammar is checked here: `IgnoredAny` recognises the text without converting anything.
+        // Deserializing into a `serde_json::Value` additionally rejected valid JSON texts that ECMAScript
+        // gives a value to: numbers outside the `f64` range (`1e400` is `Infinity`) and `\uXXXX` escapes
+        // of unpaired surrogates (`"\ud800"`).
+        //
+        // An unpaired surrogate code unit in `jsonString` itself is only valid inside a JSON string, which
+        // is exactly where its lossy replacement (U+FFFD) is valid, so the lossy conversion does not
+        // change the verdict; the text that is evaluated below is the original UTF-16 sequence.
+        let lossy_string = json_string.to_std_string_lossy();
+        if let Err(e) = serde_json::from_str::<serde::de::IgnoredAny>(&lossy_string) {
             return Err(JsNativeError::syntax().with_message(e.to_string()).into());
+        }
+
+        // `IgnoredAny` is not subject to serde_json's recursion limit, but the script parser used
+        // below is recursive, so keep the limit.
+        if json_nesting_exceeds(&lossy_string, JSON_NESTING_LIMIT) {
+            return Err(JsNativeError::syntax()
+                .with_message("recursion limit exceeded")
+                .into());
         }
 
         // Check if a reviver is provided, to determine if we need source text tracking
         let has_reviver = args.get_or_undefined(1).is_callable();
 
         // 3. Let scriptString be the string-concatenation of "(", jsonString, and ");".
-        let script_string = format!("({json_string});");
+        let mut script_string = Vec::with_capacity(json_string.len() + 3);
+        script_string.push(u16::from(b'('));
+        script_string.extend(json_string.iter());
+        script_string.extend_from_slice(utf16!(");"));
 
         // 4-10. Parse and evaluate the script
-        let source = Source::from_bytes(&script_string);
+        let source = Source::from_utf16(&script_string);
         let mut parser = Parser::new(source);
         parser.set_json_parse();
 
